@@ -42,6 +42,13 @@ CLAIMED = {
                      "Tie: seeded trees with colliding/prefix-shaped names, repeated and overlapping selections, symlinks, FIFOs, non-UTF-8 names are created on disk, the real "
                      "ScanPaths (twice) and buildPathResolver run on them, every listed file is read, and the whole manifest incl. FNV ids is compared with the model's output.",
                 note=BASE_TB + "Modelled not verified: the OS directory walk (the model is given lstat facts read back from disk), os.Stat symlink resolution for selected paths, mtime granularity."),
+    "C08": dict(category="proof", design="DESIGN.md §4 C08",
+                technique="Lean 4 theorems: byte-level auth model for an arbitrary MAC (exact acceptance characterisation, alteration, reflection, other key), symbolic Dolev-Yao soundness/relay, `decide` over regenerated success-branch dominance facts; model executed with HMAC-SHA256 vs the real authenticateTransport under a scripted attacker on netsim and real loopback QUIC",
+                text="An endpoint accepts exactly version|expected role|n|MAC(key,version|role|n) (theorem, any MAC function); altered, truncated, reflected, role-swapped messages and messages under another key are rejected "
+                     "(up to an explicit MAC collision); in the symbolic model every message an attacker can derive from all honest traffic that an honest end accepts was sent by an honest peer of the right role in the same TLS session. "
+                     "authenticateTransport's err==nil branch is the only way to the manifest transfer, to the extra-connection set-up and to keeping an extra connection (facts regenerated from the CFG, failure branches ending in os.Exit recognised). "
+                     "Tie: constants regenerated; the real authenticateTransport runs against a scripted attacker (material made by the model with its own SHA-256/HMAC) and every byte read/written by the honest ends is re-judged by the model.",
+                note=BASE_TB + "Assumed, not proved: HMAC-SHA256 unforgeability/collision-freeness; TLS exporter uniqueness per session (measured on loopback QUIC each run). Not modelled: crypto/rand, context timeouts (attacker closes its stream instead of stalling)."),
     "C07": dict(category="proof", design="DESIGN.md §4 C07",
                 technique="Lean 4 confinement theorems over an element-stack model of filepath.Clean/Join and the receiver's validators; regenerated dominance facts; filepath differential; hostile-sender runs with sandbox snapshot",
                 text="Within_join and its corollaries prove, for arbitrary byte strings, that every path expression the receiver builds from a validated manifest "
